@@ -1,23 +1,44 @@
 // Command cacheconc runs the real cache.Cache (LRU store) of the working tree from several
 // goroutines on a small shared key space, records the concurrent histories (invocation and
 // response stamps from one atomic counter, results, and the OnEvict calls made during each call)
-// and checks them:
+// and checks them.
+//
+// Two workloads:
+//
+//	mode=0 (random)  2-4 goroutines x 5-9 random calls on 2-5 keys, all released at once;
+//	mode=1 (duel)    contended same-key rounds: one cache lives for several phases; before a phase
+//	                 the driver makes the contended key present (sequentially), then 2-4 goroutines
+//	                 that have met at a spin barrier each fire one to three calls at that key:
+//	                 Remove/Remove, Remove/Put, Remove/Clear, Remove/evicting Put, Get/Get, Put/Put
+//	                 and random contended mixes; Len and Size are read between the phases.
+//
+// Per history:
 //
 //	(a) linearizability (porcupine v1.3.0) against a Go transcription of the C08 reference: recency
 //	    list, Put/Get are uses, Has is not; the victims of a Put are taken from the observed callback
 //	    log and checked as in the policy-agnostic reference S1 (present entries, evicted only while
-//	    the value does not fit, stop only when it fits) — a victim that is not the least recently
+//	    the value does not fit, stop only when it fits) - a victim that is not the least recently
 //	    used entry is counted (known finding F2), not rejected;
-//	(b) every observed Size() within [0, limit], every Len() within [0, number of keys];
-//	(c) every entry that left the cache was reported to the callback exactly once: after a final
-//	    Clear, the callback log is exactly the set of (key, value) of the Puts that returned true
-//	    (values are unique);
-//	(d) no panic.
+//	(b) every observed Size() within [0, limit], every Len() within [0, number of keys] (never negative);
+//	(c) quiescence: once all goroutines are done the driver reads Len, Size, Has and Get of every key;
+//	    Len must be the number of keys present and Size the sum of the sizes of the values present;
+//	(d) every entry that left the cache was reported to the callback exactly once: callbacks are
+//	    counted per (key, value) - values are unique per Put, so this is per (key, value-version) -
+//	    and after a final Clear every successful Put must have exactly one report, and nothing
+//	    else may have been reported (callback-twice / callback-never / callback-unknown-entry);
+//	(e) no panic.
+//
+// Nothing in the verdict depends on wall-clock time: -budget only decides how many histories are
+// produced (a slow machine yields fewer histories, never a failure), and a linearizability check that
+// does not finish in its time slice is counted as inconclusive, not as a failure.  A deadlock (a
+// method calling another locking method of the same cache under the mutex) blocks every goroutine,
+// which the Go runtime reports itself ("all goroutines are asleep"); no timer is pending while
+// histories are produced, so that report is not masked.
 //
 // It is meant to be built with -race; data races are reported by the runtime on stderr and turned
-// into failures by the runner script.  Output: FAIL input=<cfg> reason=<reason> per failing run,
-// then one STATS line.  -replay <cfg> re-runs one configuration (the schedule is the runtime's, so
-// a failure need not recur).
+// into failures by the runner script.  Output: CUR <cfg> before each history, FAIL input=<cfg>
+// reason=<reason> per failing history, then one STATS line.  -replay <cfg> re-runs one
+// configuration (the schedule is the runtime's, so a failure need not recur).
 package main
 
 import (
@@ -73,18 +94,19 @@ type rec struct {
 }
 
 type config struct {
+	mode   int // 0 random, 1 duel
 	seed   uint64
 	run    int
 	procs  int
 	g      int
-	ops    int
+	ops    int // random: calls per goroutine; duel: phases
 	keys   int
 	limit  int64
 	sizeMd int // 0 unit, 3 = v mod 3
 }
 
 func (c config) String() string {
-	return fmt.Sprintf("seed=%d,run=%d,procs=%d,g=%d,ops=%d,keys=%d,limit=%d,size=%d", c.seed, c.run, c.procs, c.g, c.ops, c.keys, c.limit, c.sizeMd)
+	return fmt.Sprintf("mode=%d,seed=%d,run=%d,procs=%d,g=%d,ops=%d,keys=%d,limit=%d,size=%d", c.mode, c.seed, c.run, c.procs, c.g, c.ops, c.keys, c.limit, c.sizeMd)
 }
 
 func parseConfig(s string) (c config, err error) {
@@ -98,6 +120,8 @@ func parseConfig(s string) (c config, err error) {
 			return c, e
 		}
 		switch kv[0] {
+		case "mode":
+			c.mode = int(n)
 		case "seed":
 			c.seed = uint64(n)
 		case "run":
@@ -115,6 +139,9 @@ func parseConfig(s string) (c config, err error) {
 		case "size":
 			c.sizeMd = int(n)
 		}
+	}
+	if c.g < 1 || c.g > 64 || c.ops < 1 || c.keys < 1 || c.limit < 1 {
+		return c, fmt.Errorf("incomplete configuration %q", s)
 	}
 	return c, nil
 }
@@ -134,67 +161,140 @@ func goid() int64 {
 	return id
 }
 
-// execute runs one configuration on the real cache.
-func execute(c config) (hist []rec, global []kv) {
-	var clock int64
-	var hmu sync.Mutex // the harness's own lock: callback log and goroutine table
-	slots := map[int64]*[]kv{}
-	cb := func(k, v int) {
-		id := goid()
-		hmu.Lock()
-		global = append(global, kv{k, v})
-		if s := slots[id]; s != nil {
-			*s = append(*s, kv{k, v})
-		}
-		hmu.Unlock()
-	}
+// ---- one cache under observation
+
+type world struct {
+	c      config
+	cc     *cache.Cache[int, int]
+	clock  int64
+	hmu    sync.Mutex // the harness's own lock: callback log and goroutine table
+	slots  map[int64]*[]kv
+	global []kv
+	yields int64
+	detail []string
+}
+
+func newWorld(c config) *world {
+	w := &world{c: c, slots: map[int64]*[]kv{}}
 	// The size function and the callback run inside the cache's critical sections: yielding there
 	// stretches them, so that other goroutines really arrive while a call is in progress (also
 	// with GOMAXPROCS=1).
-	var yields int64
 	stretch := func() {
-		if atomic.AddInt64(&yields, 1)%2 == 0 {
+		if atomic.AddInt64(&w.yields, 1)%2 == 0 {
 			runtime.Gosched()
 		}
 	}
-	inner := cb
-	cb = func(k, v int) { stretch(); inner(k, v) }
-	cfg := cache.LRU[int, int]().OnEvict(cb).WithSize(func(v int) int64 { stretch(); return c.size(v) })
-	cc := cache.New(c.limit, cfg)
-
-	doOp := func(g int, in input, cur *[]kv) (r rec) {
-		r.g, r.in = g, in
-		*cur = nil
-		defer func() {
-			if p := recover(); p != nil {
-				r.panicked = fmt.Sprint(p)
-				r.ret = atomic.AddInt64(&clock, 1)
-			}
-		}()
-		r.call = atomic.AddInt64(&clock, 1)
-		switch in.kind {
-		case 'p':
-			r.out.ok = cc.Put(in.key, in.val)
-		case 'g':
-			r.out.val, r.out.ok = cc.Get(in.key)
-		case 'h':
-			r.out.ok = cc.Has(in.key)
-		case 'r':
-			r.out.ok = cc.Remove(in.key)
-		case 'l':
-			r.out.n = int64(cc.Len())
-		case 's':
-			r.out.n = cc.Size()
-		case 'c':
-			cc.Clear()
+	cb := func(k, v int) {
+		stretch()
+		id := goid()
+		w.hmu.Lock()
+		w.global = append(w.global, kv{k, v})
+		if s := w.slots[id]; s != nil {
+			*s = append(*s, kv{k, v})
 		}
-		r.ret = atomic.AddInt64(&clock, 1)
-		hmu.Lock()
-		r.out.ev = append([]kv(nil), (*cur)...)
-		hmu.Unlock()
+		w.hmu.Unlock()
+	}
+	cfg := cache.LRU[int, int]().OnEvict(cb).WithSize(func(v int) int64 { stretch(); return c.size(v) })
+	w.cc = cache.New(c.limit, cfg)
+	return w
+}
+
+// register gives the calling goroutine its per-call callback log.
+func (w *world) register() *[]kv {
+	cur := new([]kv)
+	w.hmu.Lock()
+	w.slots[goid()] = cur
+	w.hmu.Unlock()
+	return cur
+}
+
+func (w *world) do(g int, in input, cur *[]kv) (r rec) {
+	r.g, r.in = g, in
+	*cur = nil
+	defer func() {
+		if p := recover(); p != nil {
+			r.panicked = fmt.Sprint(p)
+			r.ret = atomic.AddInt64(&w.clock, 1)
+		}
+	}()
+	cc := w.cc
+	r.call = atomic.AddInt64(&w.clock, 1)
+	switch in.kind {
+	case 'p':
+		r.out.ok = cc.Put(in.key, in.val)
+	case 'g':
+		r.out.val, r.out.ok = cc.Get(in.key)
+	case 'h':
+		r.out.ok = cc.Has(in.key)
+	case 'r':
+		r.out.ok = cc.Remove(in.key)
+	case 'l':
+		r.out.n = int64(cc.Len())
+	case 's':
+		r.out.n = cc.Size()
+	case 'c':
+		cc.Clear()
+	}
+	r.ret = atomic.AddInt64(&w.clock, 1)
+	w.hmu.Lock()
+	r.out.ev = append([]kv(nil), (*cur)...)
+	w.hmu.Unlock()
+	return r
+}
+
+// fresh returns a value that no other Put of this history uses, with the wanted size residue.
+func (c config) fresh(r *rng, g, i int) int {
+	base := (g+1)*100000 + (i+1)*10
+	if c.sizeMd == 0 {
+		return base
+	}
+	return base - base%c.sizeMd + r.intn(c.sizeMd)
+}
+
+// quiesce is run by the driver when every goroutine is done: it reads Len, Size and every key,
+// compares them directly (no reference involved), and finally clears the cache so that every
+// entry departs.  The calls are part of the history as well.
+func (w *world) quiesce(hist []rec) ([]rec, []string) {
+	var reasons []string
+	c := w.c
+	cur := w.register()
+	add := func(in input) rec {
+		r := w.do(c.g, in, cur)
+		hist = append(hist, r)
 		return r
 	}
+	ln := add(input{kind: 'l'})
+	sz := add(input{kind: 's'})
+	present, total := int64(0), int64(0)
+	for k := 0; k <= c.keys; k++ { // key c.keys is the duel mode's second key
+		h := add(input{kind: 'h', key: k})
+		g := add(input{kind: 'g', key: k})
+		if h.panicked != "" || g.panicked != "" {
+			continue
+		}
+		if h.out.ok != g.out.ok {
+			reasons = append(reasons, "quiescent-has-get-disagree")
+		}
+		if g.out.ok {
+			present++
+			total += c.size(g.out.val)
+		}
+	}
+	if ln.panicked == "" && ln.out.n != present {
+		reasons = append(reasons, "quiescent-len-is-not-the-number-of-keys-present")
+		w.detail = append(w.detail, fmt.Sprintf("quiescent Len()=%d but %d keys present", ln.out.n, present))
+	}
+	if sz.panicked == "" && sz.out.n != total {
+		reasons = append(reasons, "quiescent-size-is-not-the-sum-of-present-values")
+		w.detail = append(w.detail, fmt.Sprintf("quiescent Size()=%d but the present values sum to %d", sz.out.n, total))
+	}
+	add(input{kind: 'c'})
+	return hist, reasons
+}
 
+// executeRandom: every goroutine runs a fixed random programme; all are released at once.
+func executeRandom(c config) (hist []rec, global []kv, reasons, detail []string) {
+	w := newWorld(c)
 	per := make([][]rec, c.g)
 	var wg sync.WaitGroup
 	start := make(chan struct{})
@@ -203,10 +303,7 @@ func execute(c config) (hist []rec, global []kv) {
 		go func(g int) {
 			defer wg.Done()
 			r := newRng(c.seed*1000003 + uint64(c.run)*977 + uint64(g)*31 + 7)
-			cur := new([]kv)
-			hmu.Lock()
-			slots[goid()] = cur
-			hmu.Unlock()
+			cur := w.register()
 			// the programme of this goroutine is fixed before the start
 			ins := make([]input, c.ops)
 			for i := range ins {
@@ -214,17 +311,7 @@ func execute(c config) (hist []rec, global []kv) {
 				k := r.intn(c.keys)
 				switch {
 				case x < 38:
-					// unique value with the wanted size residue
-					res := 1
-					if c.sizeMd != 0 {
-						res = r.intn(c.sizeMd)
-					}
-					base := (g+1)*100000 + (i+1)*10
-					v := base
-					if c.sizeMd != 0 {
-						v = base - base%c.sizeMd + res
-					}
-					ins[i] = input{kind: 'p', key: k, val: v}
+					ins[i] = input{kind: 'p', key: k, val: c.fresh(r, g, i)}
 				case x < 58:
 					ins[i] = input{kind: 'g', key: k}
 				case x < 68:
@@ -245,7 +332,7 @@ func execute(c config) (hist []rec, global []kv) {
 			}
 			<-start
 			for i, in := range ins {
-				per[g] = append(per[g], doOp(g, in, cur))
+				per[g] = append(per[g], w.do(g, in, cur))
 				if yield[i] {
 					runtime.Gosched()
 				}
@@ -257,13 +344,150 @@ func execute(c config) (hist []rec, global []kv) {
 	for g := range per {
 		hist = append(hist, per[g]...)
 	}
-	// everything departs
-	cur := new([]kv)
-	hmu.Lock()
-	slots[goid()] = cur
-	hmu.Unlock()
-	hist = append(hist, doOp(c.g, input{kind: 'c'}, cur))
-	return hist, global
+	hist, reasons = w.quiesce(hist)
+	return hist, w.global, reasons, w.detail
+}
+
+// executeDuel: contended same-key phases (see the package comment).  Key 0 is the contended key,
+// key c.keys (one past the random key space) is the "other" key whose Put evicts key 0 when the
+// limit is small.
+func executeDuel(c config) (hist []rec, global []kv, reasons, detail []string) {
+	w := newWorld(c)
+	r := newRng(c.seed*7000003 + uint64(c.run)*7919 + 13)
+	phases := c.ops
+	other := c.keys
+	// programmes: prog[p][g] = calls of goroutine g in phase p; pre[p] = the driver's calls before it
+	prog := make([][][]input, phases)
+	pre := make([][]input, phases)
+	post := make([][]input, phases)
+	serial := 0
+	val := func(g int) int { serial++; return c.fresh(r, g, serial) }
+	contended := func(g int) input {
+		k := 0
+		if c.keys > 1 && r.intn(4) == 0 {
+			k = 1 + r.intn(c.keys-1)
+		}
+		switch x := r.intn(100); {
+		case x < 35:
+			return input{kind: 'r', key: k}
+		case x < 60:
+			return input{kind: 'p', key: k, val: val(g)}
+		case x < 75:
+			return input{kind: 'g', key: k}
+		case x < 83:
+			return input{kind: 'c'}
+		case x < 90:
+			return input{kind: 'h', key: k}
+		case x < 95:
+			return input{kind: 'l'}
+		default:
+			return input{kind: 's'}
+		}
+	}
+	for p := 0; p < phases; p++ {
+		prog[p] = make([][]input, c.g)
+		// the contended key is present at the start of most phases
+		if r.intn(8) != 0 {
+			pre[p] = append(pre[p], input{kind: 'p', key: 0, val: val(c.g)})
+		}
+		if r.intn(3) == 0 {
+			pre[p] = append(pre[p], input{kind: 'g', key: 0})
+		}
+		t := r.intn(10)
+		for g := 0; g < c.g; g++ {
+			var first input
+			switch t {
+			case 0, 1: // Remove/Remove
+				first = input{kind: 'r', key: 0}
+			case 2: // Remove/Put of the same key
+				if g == 0 {
+					first = input{kind: 'r', key: 0}
+				} else {
+					first = input{kind: 'p', key: 0, val: val(g)}
+				}
+			case 3: // Remove/Clear
+				if g == 0 {
+					first = input{kind: 'c'}
+				} else {
+					first = input{kind: 'r', key: 0}
+				}
+			case 4: // Remove against a Put of another key that has to evict
+				if g == 0 {
+					first = input{kind: 'p', key: other, val: val(g)}
+				} else {
+					first = input{kind: 'r', key: 0}
+				}
+			case 5: // Get/Get (and one Put of the other key, which evicts by recency)
+				if g == 0 && c.g > 2 {
+					first = input{kind: 'p', key: other, val: val(g)}
+				} else {
+					first = input{kind: 'g', key: 0}
+				}
+			case 6: // Put/Put of the same key
+				first = input{kind: 'p', key: 0, val: val(g)}
+			default:
+				first = contended(g)
+			}
+			prog[p][g] = append(prog[p][g], first)
+			for n := r.intn(3); n > 0; n-- {
+				prog[p][g] = append(prog[p][g], contended(g))
+			}
+		}
+		if r.intn(2) == 0 {
+			post[p] = append(post[p], input{kind: 'l'}, input{kind: 's'})
+		}
+	}
+	per := make([][]rec, c.g)
+	starts := make([]chan struct{}, phases)
+	dones := make([]sync.WaitGroup, phases)
+	ready := make([]int32, phases)
+	for p := range starts {
+		starts[p] = make(chan struct{})
+		dones[p].Add(c.g)
+	}
+	spinOnly := runtime.GOMAXPROCS(0) > c.g
+	for g := 0; g < c.g; g++ {
+		go func(g int) {
+			cur := w.register()
+			for p := 0; p < phases; p++ {
+				<-starts[p]
+				// meet the others, so that the first calls of the phase start together
+				atomic.AddInt32(&ready[p], 1)
+				for n := 0; atomic.LoadInt32(&ready[p]) < int32(c.g); n++ {
+					if !spinOnly || n%64 == 63 {
+						runtime.Gosched()
+					}
+				}
+				for _, in := range prog[p][g] {
+					per[g] = append(per[g], w.do(g, in, cur))
+				}
+				dones[p].Done()
+			}
+		}(g)
+	}
+	cur := w.register()
+	for p := 0; p < phases; p++ {
+		for _, in := range pre[p] {
+			hist = append(hist, w.do(c.g, in, cur))
+		}
+		close(starts[p])
+		dones[p].Wait()
+		for _, in := range post[p] {
+			hist = append(hist, w.do(c.g, in, cur))
+		}
+	}
+	for g := range per {
+		hist = append(hist, per[g]...)
+	}
+	hist, reasons = w.quiesce(hist)
+	return hist, w.global, reasons, w.detail
+}
+
+func execute(c config) ([]rec, []kv, []string, []string) {
+	if c.mode == 1 {
+		return executeDuel(c)
+	}
+	return executeRandom(c)
 }
 
 // ---- the sequential reference (state = "k:v;k:v;" least recently used first)
@@ -405,14 +629,17 @@ func model(c config) porcupine.Model {
 	}
 }
 
-// check returns the reasons for which this run fails.
-func check(c config, hist []rec, global []kv, timeout time.Duration) (reasons []string, overlaps int) {
+// check returns the reasons for which this history fails; inconclusive = the linearizability
+// search did not finish in its time slice (not a failure).
+func check(c config, hist []rec, global []kv, slice time.Duration) (reasons []string, overlaps int, inconclusive bool) {
 	ops := make([]porcupine.Operation, 0, len(hist))
 	puts := map[kv]int{}
 	perOp := 0
+	anyPanic := false // the callback log of a call that panicked is not attributed to it
 	for _, r := range hist {
 		if r.panicked != "" {
-			reasons = append(reasons, "panic")
+			reasons = append(reasons, "panic:"+firstWords(r.panicked))
+			anyPanic = true
 			continue
 		}
 		ops = append(ops, porcupine.Operation{ClientId: r.g, Input: r.in, Call: r.call, Output: r.out, Return: r.ret})
@@ -423,12 +650,16 @@ func check(c config, hist []rec, global []kv, timeout time.Duration) (reasons []
 				puts[kv{r.in.key, r.in.val}]++
 			}
 		case 's':
-			if r.out.n < 0 || r.out.n > c.limit {
+			if r.out.n < 0 {
+				reasons = append(reasons, "size-negative")
+			} else if r.out.n > c.limit {
 				reasons = append(reasons, "size-exceeds-limit")
 			}
 		case 'l':
-			if r.out.n < 0 || r.out.n > int64(c.keys) {
-				reasons = append(reasons, "len-out-of-range")
+			if r.out.n < 0 {
+				reasons = append(reasons, "len-negative")
+			} else if r.out.n > int64(c.keys)+1 {
+				reasons = append(reasons, "len-exceeds-number-of-keys")
 			}
 		}
 	}
@@ -439,27 +670,44 @@ func check(c config, hist []rec, global []kv, timeout time.Duration) (reasons []
 			}
 		}
 	}
-	// exactly once
+	// exactly once, per (key, value-version)
 	seen := map[kv]int{}
 	for _, e := range global {
 		seen[e]++
 	}
-	okOnce := perOp == len(global) && len(seen) == len(puts)
+	if perOp != len(global) && !anyPanic {
+		reasons = append(reasons, "callback-outside-any-call")
+	}
 	for e, n := range seen {
-		if n != 1 || puts[e] != 1 {
-			okOnce = false
+		if puts[e] == 0 {
+			reasons = append(reasons, "callback-unknown-entry")
+		} else if n > 1 {
+			reasons = append(reasons, "callback-twice")
 		}
 	}
-	if !okOnce {
-		reasons = append(reasons, "callback-not-exactly-once")
+	for e, n := range puts {
+		if n != 1 {
+			reasons = append(reasons, "harness-value-not-unique")
+		}
+		if seen[e] == 0 {
+			reasons = append(reasons, "callback-never")
+		}
 	}
-	switch porcupine.CheckOperationsTimeout(model(c), ops, timeout) {
+	switch porcupine.CheckOperationsTimeout(model(c), ops, slice) {
 	case porcupine.Illegal:
 		reasons = append(reasons, "not-linearizable")
 	case porcupine.Unknown:
-		reasons = append(reasons, "linearizability-check-timeout")
+		inconclusive = true
 	}
-	return dedup(reasons), overlaps
+	return dedup(reasons), overlaps, inconclusive
+}
+
+func firstWords(s string) string {
+	f := strings.Fields(s)
+	if len(f) > 3 {
+		f = f[:3]
+	}
+	return strings.Join(f, "_")
 }
 
 func dedup(xs []string) []string {
@@ -514,19 +762,59 @@ func selftest() bool {
 		op(1, input{kind: 'h', key: 1}, output{ok: false}, 7, 8),
 		op(1, input{kind: 's'}, output{n: 2}, 9, 10),
 	}
-	ok := porcupine.CheckOperations(m, h1) && !porcupine.CheckOperations(m, h2) && !porcupine.CheckOperations(m, h3) && porcupine.CheckOperations(m, h4)
-	return ok
+	// check-then-act Remove: two overlapping Removes of one present key both report true
+	h5 := []porcupine.Operation{
+		op(2, input{kind: 'p', key: 0, val: 10}, output{ok: true}, 1, 2),
+		op(0, input{kind: 'r', key: 0}, output{ok: true, ev: []kv{{0, 10}}}, 3, 6),
+		op(1, input{kind: 'r', key: 0}, output{ok: true, ev: []kv{{0, 0}}}, 4, 5),
+	}
+	// the same with one of them reporting false: legal
+	h6 := []porcupine.Operation{
+		op(2, input{kind: 'p', key: 0, val: 10}, output{ok: true}, 1, 2),
+		op(0, input{kind: 'r', key: 0}, output{ok: true, ev: []kv{{0, 10}}}, 3, 6),
+		op(1, input{kind: 'r', key: 0}, output{}, 4, 5),
+	}
+	// two overlapping Gets, then a Put that must evict: the victim is reported, recency of the
+	// Gets is not constrained by the reference (F2), but a victim that is not present is illegal
+	h7 := []porcupine.Operation{
+		op(2, input{kind: 'p', key: 0, val: 10}, output{ok: true}, 1, 2),
+		op(2, input{kind: 'p', key: 1, val: 20}, output{ok: true}, 3, 4),
+		op(0, input{kind: 'g', key: 0}, output{ok: true, val: 10}, 5, 8),
+		op(1, input{kind: 'g', key: 0}, output{ok: true, val: 20}, 6, 7), // another key's value
+	}
+	ok := porcupine.CheckOperations(m, h1) && !porcupine.CheckOperations(m, h2) && !porcupine.CheckOperations(m, h3) && porcupine.CheckOperations(m, h4) &&
+		!porcupine.CheckOperations(m, h5) && porcupine.CheckOperations(m, h6) && !porcupine.CheckOperations(m, h7)
+	// the direct checks: a second report of a departed entry, a negative Len
+	hist := []rec{
+		{g: 0, in: input{kind: 'p', key: 0, val: 10}, out: output{ok: true}, call: 1, ret: 2},
+		{g: 0, in: input{kind: 'r', key: 0}, out: output{ok: true, ev: []kv{{0, 10}}}, call: 3, ret: 4},
+		{g: 0, in: input{kind: 'l'}, out: output{n: -1}, call: 5, ret: 6},
+	}
+	rs, _, _ := check(c, hist, []kv{{0, 10}, {0, 10}}, time.Second)
+	has := func(x string) bool {
+		for _, r := range rs {
+			if r == x {
+				return true
+			}
+		}
+		return false
+	}
+	return ok && has("callback-twice") && has("len-negative") && has("callback-outside-any-call") && has("not-linearizable")
 }
 
 func main() {
 	seed := flag.Uint64("seed", 1, "seed")
-	runs := flag.Int("runs", 100, "histories")
+	runs := flag.Int("runs", 100, "histories at most")
+	minRuns := flag.Int("minruns", 10, "histories at least (whatever the budget)")
+	budget := flag.Float64("budget", 0, "seconds after which no further history is started (0 = none)")
+	mode := flag.Int("mode", 0, "0 random workload, 1 contended same-key phases")
 	procs := flag.Int("procs", 0, "GOMAXPROCS (0 = leave)")
 	gor := flag.Int("goroutines", 0, "goroutines (0 = 2..4)")
-	nops := flag.Int("ops", 0, "ops per goroutine (0 = 5..9)")
-	keys := flag.Int("keys", 0, "key space (0 = 2..5)")
+	nops := flag.Int("ops", 0, "random: calls per goroutine (0 = 5..9); duel: phases (0 = 4..8)")
+	keys := flag.Int("keys", 0, "key space (0 = 2..5; duel 1..2)")
 	replay := flag.String("replay", "", "configuration to re-run")
 	verbose := flag.Bool("v", false, "dump failing histories")
+	quiet := flag.Bool("q", false, "no CUR lines")
 	st := flag.Bool("selftest", false, "check the checker")
 	flag.Parse()
 	if *st {
@@ -540,7 +828,7 @@ func main() {
 	if *procs > 0 {
 		runtime.GOMAXPROCS(*procs)
 	}
-	var cfgs []config
+	var fixed *config
 	if *replay != "" {
 		c, err := parseConfig(*replay)
 		if err != nil {
@@ -550,16 +838,26 @@ func main() {
 		if c.procs > 0 {
 			runtime.GOMAXPROCS(c.procs)
 		}
-		for i := 0; i < *runs; i++ {
-			cfgs = append(cfgs, c)
+		fixed = &c
+	}
+	r := newRng(*seed*31 + uint64(*mode))
+	next := func(i int) config {
+		if fixed != nil {
+			return *fixed
 		}
-	} else {
-		r := newRng(*seed)
-		for i := 0; i < *runs; i++ {
-			c := config{seed: *seed, run: i, procs: runtime.GOMAXPROCS(0), g: *gor, ops: *nops, keys: *keys}
-			if c.g == 0 {
-				c.g = 2 + r.intn(3)
+		c := config{mode: *mode, seed: *seed, run: i, procs: runtime.GOMAXPROCS(0), g: *gor, ops: *nops, keys: *keys}
+		if c.g == 0 {
+			c.g = 2 + r.intn(3)
+		}
+		if c.mode == 1 {
+			if c.ops == 0 {
+				c.ops = 4 + r.intn(5)
 			}
+			if c.keys == 0 {
+				c.keys = 1 + r.intn(2)
+			}
+			c.limit = int64(1 + r.intn(3))
+		} else {
 			if c.ops == 0 {
 				c.ops = 5 + r.intn(5)
 			}
@@ -567,31 +865,52 @@ func main() {
 				c.keys = 2 + r.intn(4)
 			}
 			c.limit = int64(1 + r.intn(6))
-			if r.intn(2) == 0 {
-				c.sizeMd = 3
-			}
-			cfgs = append(cfgs, c)
 		}
+		if r.intn(2) == 0 {
+			c.sizeMd = 3
+		}
+		return c
 	}
-	fails, totalOps, overlaps, nonlin := 0, 0, 0, 0
-	for _, c := range cfgs {
-		hist, global := execute(c)
+	t0 := time.Now()
+	done, fails, totalOps, overlaps, nonlin, inconcl := 0, 0, 0, 0, 0, 0
+	failed := map[string]bool{}
+	for i := 0; i < *runs; i++ {
+		if i >= *minRuns && *budget > 0 && time.Since(t0).Seconds() > *budget {
+			break
+		}
+		c := next(i)
+		if !*quiet {
+			fmt.Printf("CUR %s\n", c)
+		}
+		hist, global, reasons, detail := execute(c)
+		done++
 		totalOps += len(hist)
-		reasons, ov := check(c, hist, global, 20*time.Second)
+		more, ov, inc := check(c, hist, global, 5*time.Second)
+		reasons = dedup(append(reasons, more...))
 		overlaps += ov
+		if inc {
+			inconcl++
+		}
 		for _, why := range reasons {
 			fails++
 			if why == "not-linearizable" {
 				nonlin++
 			}
-			fmt.Printf("FAIL input=%s reason=%s\n", c, why)
+			// one line per distinct reason is enough for the report
+			if !failed[why] || *verbose {
+				fmt.Printf("FAIL input=%s reason=%s\n", c, why)
+			}
+			failed[why] = true
 		}
 		if len(reasons) > 0 && *verbose {
+			for _, d := range detail {
+				fmt.Fprintln(os.Stderr, "  "+d)
+			}
 			dump(hist)
 		}
 	}
-	fmt.Printf("STATS runs=%d ops=%d fails=%d nonlinearizable=%d nonLRUVictims=%d overlaps=%d procs=%d\n",
-		len(cfgs), totalOps, fails, nonlin, atomic.LoadInt64(&nonLRU), overlaps, runtime.GOMAXPROCS(0))
+	fmt.Printf("STATS mode=%d runs=%d ops=%d fails=%d nonlinearizable=%d inconclusive=%d nonLRUVictims=%d overlaps=%d procs=%d wall=%.1f\n",
+		*mode, done, totalOps, fails, nonlin, inconcl, atomic.LoadInt64(&nonLRU), overlaps, runtime.GOMAXPROCS(0), time.Since(t0).Seconds())
 	if fails > 0 {
 		os.Exit(1)
 	}
